@@ -106,6 +106,15 @@ func main() {
 		}
 		return
 	}
+	if o.Funcs == "all" {
+		var ks []string
+		for _, k := range eng.contracts.Order {
+			if !eng.contracts.Funcs[k].Trusted && eng.funcs[k] != nil && eng.contracts.Funcs[k].Opts["inline"] == "" {
+				ks = append(ks, k)
+			}
+		}
+		o.Funcs = strings.Join(ks, ",")
+	}
 	if o.Funcs != "" {
 		os.Exit(debugRun(eng, &o))
 	}
@@ -123,6 +132,15 @@ func debugRun(eng *Engine, o *Options) int {
 		t0 := time.Now()
 		res := eng.verifyFunction(fn, eng.contracts.Funcs[key], false)
 		res.GenS = time.Since(t0).Seconds()
+		if o.Prop != "" {
+			var kept []*Obligation
+			for _, ob := range res.Obls {
+				if relevant(ob, o.Prop) {
+					kept = append(kept, ob)
+				}
+			}
+			res.Obls = kept
+		}
 		solveAll(eng, o, []*FuncResult{res})
 		fmt.Printf("== %s: %d obligations, gen %.2fs\n", key, len(res.Obls), res.GenS)
 		for _, e := range res.SpecErrors {
